@@ -492,7 +492,7 @@ class CGenerator:
         if n.storage:
             s += " ".join(n.storage) + " "
         if n.align:
-            s += self.visit(n.align[0]) + " "
+            s += " ".join(self.visit(a) for a in n.align) + " "
         if n.quals and isinstance(n.type, (c_ast.Struct, c_ast.Union, c_ast.Enum)):
             # A bare tag declaration ('const struct S;') has no TypeDecl to
             # carry the qualifiers.
